@@ -352,3 +352,35 @@ def main_wrapper(prop, run):
                                  "no_longer_checks": "harness build against /repo"}, False)
     rc = finish(ctx)
     sys.exit(rc)
+
+
+# ---------------------------------------------------------------- driver | model pipelines
+def pipeline(cmd, timeout=3000):
+    """Run 'driver | modelmain'; returns (MISMATCH lines, stats of the DONE line)."""
+    rc, out, err = sh(["bash", "-o", "pipefail", "-c", cmd], timeout=timeout)
+    lines = out.splitlines()
+    mism = [l for l in lines if l.startswith("MISMATCH")]
+    done = [l for l in lines if l.startswith("DONE")]
+    if rc != 0 or not done:
+        raise BuildError("pipeline failed rc=%d: %s\n%s\n%s" % (rc, cmd, out[-1500:], err[-1500:]))
+    stats = {}
+    for kv in done[-1].split()[1:]:
+        k, v = kv.split("=", 1)
+        stats[k] = int(v) if v.lstrip("-").isdigit() else v
+    return mism, stats
+
+
+def history_lines(cmd, index, start="H", end="E"):
+    """Extract the index-th history block (lines from a line starting with
+    `start` to the `end` line) from a driver's output."""
+    rc, out, err = sh(["bash", "-c", cmd], timeout=3000)
+    cur, k = None, -1
+    for l in out.splitlines():
+        if l.split(" ", 1)[0] == start:
+            k += 1
+            cur = [] if k == index else None
+        if cur is not None:
+            cur.append(l if len(l) < 400 else l[:400] + "...")
+            if l.strip() == end:
+                return cur
+    return cur or []
